@@ -22,6 +22,7 @@ RULE = (
     "completion order; plus ONE Disposables object (two disposables) used by 2-3 consecutive scopes with per-use behaviours; non-trivial = some enter or exit fails or suspends, or the body does not "
     "return normally"
 )
+RULE += ' Rounds 10-13: MANY disposables (4-9 (17)), one / two positions misbehaving; the disposables argument as tuple / generator / iterator / Disposables object; consecutive scopes with equal but distinct disposables.'
 ASSUMPTIONS = [
     "an exit error counts as surfaced when it is the caller's exception, a member of its exception "
     "group (recursively), or on its __context__/__cause__ chain",
